@@ -41,6 +41,10 @@ def results_equal(hist, a, b, check_order=True):
     if fo is None:
         return True
     cols = [c for c in fo[0]]
+    if not (set(cols) <= set(a[1])) and not (set(cols) <= set(b[1])):
+        # neither result has the order columns (the pipeline raised no error but produced other columns,
+        # e.g. a pivot of blocks whose keys are not in its control table): equal multisets is all there is to compare
+        return True
     try:
         ka = compare.project_cols(a, cols)
         kb = compare.project_cols(b, cols)
